@@ -1,6 +1,9 @@
-\* strict configuration (no deviation accepted); checks/C16.py generates the one with DevAllowed = the known findings
+\* strict blocking configuration (no deviation accepted); checks/C16.py generates the two it uses:
+\*   pass 1  Eval = TRUE,  DevAllowed = {}                       which executions does the property explain?
+\*   pass 2  Eval = FALSE, DevAllowed = the known findings       the others: known deviation, or violation
 SPECIFICATION Spec
 CONSTANT DevAllowed = {}
+CONSTANT Eval = FALSE
 INVARIANT TraceChk
 POSTCONDITION TracePost
 CHECK_DEADLOCK FALSE
